@@ -48,12 +48,23 @@ def main():
             txt = open(os.path.join(vdir, d)).read()
             m = re.search(r'((?:internal|cmd)/[\w/]+?)/?(\w+_test\.go)?\b', txt[:3000])
             pkgm = re.search(r'^package (\w+)', txt, re.M)
-            target_dir = None
-            for cand in re.findall(r'((?:internal|cmd)(?:/[A-Za-z_0-9]+)+)', txt[:3000] + '\n' + readme):
-                cand = re.sub(r'/\w+_test$', '', cand)
-                if os.path.isdir(os.path.join(wt, cand)):
-                    target_dir = cand
-                    break
+            target_dir = os.environ.get('SEED_DEMO_DIR')
+
+            def pkg_of(dirpath):
+                for fn in sorted(os.listdir(dirpath)):
+                    if fn.endswith('.go') and not fn.endswith('_test.go'):
+                        mm = re.search(r'^package (\w+)', open(os.path.join(dirpath, fn)).read(), re.M)
+                        if mm:
+                            return mm.group(1)
+                return None
+            want = re.sub(r'_test$', '', pkgm.group(1)) if pkgm else None
+            cands = [re.sub(r'/\w+_test$', '', c).rstrip('/') for c in
+                     re.findall(r'((?:internal|cmd)(?:/[A-Za-z_0-9]+)*)', txt[:3000] + '\n' + readme)]
+            for strict in (True, False):
+                for cand in cands:
+                    if target_dir is None and os.path.isdir(os.path.join(wt, cand)) and cand not in ('cmd',) \
+                            and (not strict or pkg_of(os.path.join(wt, cand)) == want) and (strict or cand != 'internal'):
+                        target_dir = cand
             if target_dir is None and pkgm and pkgm.group(1) == 'main':
                 target_dir = os.path.join('cmd', 'seeddemo_' + d[:-3])
                 os.makedirs(os.path.join(wt, target_dir), exist_ok=True)
@@ -149,9 +160,10 @@ def main():
         # restore the evidence of the clean tree is the caller's business (evidence is rewritten by every run)
         dst = os.path.join(VERIF, 'seeded', name)
         os.makedirs(dst, exist_ok=True)
-        shutil.copy(os.path.join(vdir, 'patch.diff'), os.path.join(dst, 'patch.diff'))
-        for d in demos:
-            shutil.copy(os.path.join(vdir, d), os.path.join(dst, d))
+        if os.path.realpath(vdir) != os.path.realpath(dst):
+            shutil.copy(os.path.join(vdir, 'patch.diff'), os.path.join(dst, 'patch.diff'))
+            for d in demos:
+                shutil.copy(os.path.join(vdir, d), os.path.join(dst, d))
         if readme:
             open(os.path.join(dst, 'README.md'), 'w').write(readme)
         m = re.search(r'(?i)(needs?|trigger|manifest)[^\n]*\n?[^\n]*', readme)
